@@ -11,7 +11,8 @@ LEVEL = "exploration"
 BUDGET = {"quick": 30, "thorough": 600}
 SHAPES = ["head_at_limit", "head_unterminated", "cl_at_limit", "chunked_at_limit", "cl_huge_digits", "csize_huge_digits",
           "unterminated_chunk_line", "unterminated_trailer", "mutated_message", "garbage", "long_reqline",
-          "many_small_headers", "head_at_limit_leading_crlf", "long_value_bad_tail", "long_trailer_bad_tail"]
+          "many_small_headers", "head_at_limit_leading_crlf", "long_value_bad_tail", "long_trailer_bad_tail",
+          "leading_ws_flood"]
 EVIDENCE = {
     "rule": "one connection; input shape drawn from " + ", ".join(SHAPES) + "; max_request_header_size in {16..262144}, "
             "max_request_body_size in {8..1 GiB}, sizes placed at limit-2..limit+2, recv_bytes in {1,7,64,8192}, with and "
@@ -72,7 +73,8 @@ def build(sc):
     H, B, d = sc["max_header"], sc["max_body"], sc["d"]
     exp = {"statuses": None, "must_refuse": False, "may_refuse": False, "may_wait": False, "cross_pos": None,
            "no_follower": False}
-    head_shapes = ("head_at_limit", "head_at_limit_leading_crlf", "head_unterminated", "long_reqline", "many_small_headers")
+    head_shapes = ("head_at_limit", "head_at_limit_leading_crlf", "head_unterminated", "long_reqline", "many_small_headers",
+                   "leading_ws_flood")
     if shape not in head_shapes:
         H = sc["max_header"] = 262144
     if shape not in ("cl_at_limit", "chunked_at_limit", "unterminated_chunk_line", "unterminated_trailer"):
@@ -109,6 +111,18 @@ def build(sc):
         exp["statuses"] = {431}
         exp["cross_pos"] = H
         exp["no_follower"] = True
+    elif shape == "leading_ws_flood":
+        # nothing but bytes a lenient parser might skip in front of a request line (no CRLF CRLF among them), more
+        # of them than a header block may have, then a well-formed request: the block that ends at the request's
+        # blank line is over the limit long before the request line arrives
+        if H > 3000:
+            sc["max_header"] = H = 800
+        wsb = [b"\n", b" ", b"\x0b", b"\t", b"\r", b"\x0c", b" \n", b"\n\n "][sc["seed"] % 8]
+        n = H + 5 + d
+        stream = (wsb * n)[:n] + b"GET /w HTTP/1.1\r\nHost: h\r\n\r\n"
+        exp["must_refuse"] = True
+        exp["statuses"] = {431}
+        exp["cross_pos"] = H
     elif shape == "long_reqline":
         if H > 5000:
             sc["max_header"] = H = 300
